@@ -370,8 +370,8 @@ func runRPCScript(c *Case, w rpcWeights, trackMeta bool) *rpcRun {
 					continue
 				}
 				kw := map[string]any{}
-				if chance(r, 50) {
-					kw["reason"] = "com.myapp.kicked"
+				if rs := pick(r, killReasons); rs != "" {
+					kw["reason"] = rs // includes the reason URIs the router itself uses for shutdown and normal close
 				}
 				exec(model.Op{Kind: model.OpMetaCall, P: killer, Req: g.nextReq(killer), URI: "wamp.session.kill", Args: []any{model.Ref{Kind: "sid", P: p}}, Kw: kw})
 			} else {
